@@ -77,6 +77,55 @@ def handler_program(rng):
     return "\n".join(L) + "\n"
 
 
+def early_out_programs(rng):
+    """Functions with two returns whose paths treat a callee-saved register / the stack pointer /
+    a temporary differently, in both file layouts (functions after the program's exit, and `j main`
+    first with main last): whichever return the markup picks as the exit, the facts at the exit
+    are the meet over both paths."""
+    out = []
+    for _ in range(3):
+        s = rng.choice(["s1", "s3", "s7", "s11"])
+        eff = rng.choice([f"li {s}, 2", f"addi {s}, {s}, 1", f"mv {s}, a0", "addi sp, sp, -4", "li t0, 1"])
+        early_first = rng.random() < 0.5
+        a_, b_ = (["    li a0, 1", "    ret"], [f"    {eff}", "    li a0, 2", "    ret"])
+        if not early_first:
+            a_, b_ = b_, a_
+        fn = ["fa:", f"    {rng.choice(['beqz', 'bnez', 'bltz'])} a0, alt"] + a_ + ["alt:"] + b_
+        mainp = ["main:", "    li a0, 1", "    jal fa", "    li a7, 10", "    ecall"]
+        out.append("\n".join(mainp + fn) + "\n")
+        out.append("\n".join(["    j main"] + fn + mainp) + "\n")
+        out.append("\n".join(["    j main"] + fn + ["fb:", "    li a0, 7", "    ret"] + mainp[:3] + ["    jal fb"] + mainp[3:]) + "\n")
+    return out
+
+
+def handler_layouts(rng):
+    """Where an interrupt-vector installation (`la rX, h` + `csrrw _, utvec, rX`) can stand: on the
+    program's main path, in a called function, after a return / behind a jump (code nothing
+    reaches), inside another handler (chaining). The installed label is a function in every case."""
+    utvec = rng.choice(["5", "utvec"])
+    r = rng.choice(["t0", "t1", "a2"])
+    inst = [f"    la {r}, H", f"    csrrw zero, {utvec}, {r}"]
+    body = lambda n: [f"{n}:", f"    addi s{rng.randrange(2, 6)}, zero, {rng.randrange(1, 9)}", "    uret"]
+    exit_ = ["    li a7, 10", "    ecall"]
+    out = []
+    # main path
+    out.append(["main:"] + inst + exit_ + body("H"))
+    # in a called function
+    out.append(["main:", "    jal setup"] + exit_ + ["setup:"] + inst + ["    ret"] + body("H"))
+    # behind a jump: the installation is unreachable
+    out.append(["main:", "    j start"] + inst + ["start:"] + exit_ + body("H"))
+    # after the return of a helper
+    out.append(["main:", "    jal helper"] + exit_ + ["helper:", "    li a0, 0", "    ret"] + inst + ["    ret"] + body("H"))
+    # chaining: a handler installs the next one
+    out.append(["main:", f"    la {r}, G", f"    csrrw zero, {utvec}, {r}", "    jal helper"] + exit_ +
+               ["helper:", "    li a0, 0", "    ret", "G:"] + inst + ["    uret"] + body("H"))
+    # two installations of the same and of different handlers
+    out.append(["main:"] + inst + [f"    la {r}, G", f"    csrrw zero, {utvec}, {r}"] + inst + exit_ + body("G") + body("H"))
+    # the handler is also an ordinary call target
+    out.append(["main:"] + inst + ["    jal H"] + exit_ + ["H:", "    addi a0, a0, 1", "    ret"])
+    return ["\n".join(p) + "\n" for p in out]
+
+
 def branch_matrix():
     """Every branch mnemonic (base and pseudo) with zero / register in each operand position, run
     with operand values that exercise both outcomes: the fall-through and the taken edge of a
@@ -203,7 +252,7 @@ def alloca_programs(rng, n=6):
 
 
 def gen_programs(rng, n, sloppy_choices=(0, 0.1, 0.3), multi=0.15):
-    out = list(CORPUS) + branch_matrix() + ecall_matrix() + arith_matrix(rng) + alloca_programs(rng)
+    out = list(CORPUS) + branch_matrix() + ecall_matrix() + arith_matrix(rng) + alloca_programs(rng) + handler_layouts(rng) + early_out_programs(rng)
     for _ in range(max(4, n // 10)):
         out.append(handler_program(rng))
         out.append(backward_layout(rng))
